@@ -128,7 +128,8 @@ CLAIMS = {
             "from its own guard; the position moves onto a slot only on a path where the guard protected that very slot and the protected value "
             "was re-validated (other position stores: end-of-container, guard-copying copies); steps are exactly one link / one slot (forward "
             "m_idx+1,+1,child from 0,parent at idxParent+1; backward mirrored); erase_at(iterator) removes by a CAS on the iterator's own slot "
-            "expecting the iterator's guarded pointer, retires only on the winning path and reports the CAS outcome. 'Visits every element "
+            "expecting the iterator's guarded pointer, retires only on the winning path and reports the CAS outcome; the MichaelHashSet iterator keeps "
+            "the list position it tested against end() (R19.5). 'Visits every element "
             "present during the whole iteration' as a behavioural statement and RCU iterators are NOT decided.",
             "static analysis: value-numbered path tables on enumerated CFG paths + affine forms of the index definitions", "DESIGN.md §4 C19"),
     "C20": ("other", "Path-effect consistency over every container member that touches the item counter: counter changed at most once and only on "
